@@ -20,6 +20,11 @@ LEVEL_NOTE = "Trusted: vf/kernel.py spawn/exit log."
 
 
 def strategy(tier):
+    from hypothesis import strategies as st
+    return st.one_of(graph.layered_case(flags=("stop_early",)), _general(tier))
+
+
+def _general(tier):
     return graph.graph_case(max_tasks=9 if tier == "quick" else 12, outcomes="some", max_bad=2,
                             kind_weights=(4, 3, 1, 1), p_par=0.75, p_seed_den=8,
                             densities=("sparse", "thin", "thin", "thin", "dense"),
